@@ -28,7 +28,7 @@ EXHAUSTIVE = {"quick": "all operation histories up to length 3 over the 14-opera
               "thorough": "all operation histories up to length 4 over the 14-operation alphabet"}
 REQUIRED = ["probes_contains", "probes_getitem", "probes_getattr", "probes_get", "probes_get_add",
             "probes_delitem", "probes_setvalue", "probes_int", "probes_slice",
-            "states_with_duplicates", "states_norm_on", "probes_get_default_kinds", "probes_int_numpy_or_bool", "probes_slice_delete"]
+            "states_with_duplicates", "states_norm_on", "probes_get_default_kinds", "probes_int_numpy_or_bool", "probes_slice_delete", "states_of_text_curves"]
 SOFT_DEADLINE = {"quick": 90, "thorough": 1200}
 
 NAMES = ["A", "a", "B", "", "1", "A:1", "_A"]      # "_A": a legal mnemonic that looks like a private attribute; "A:1" collides with a generated suffix: the only way to reach duplicate session names
@@ -45,6 +45,9 @@ def grid(tier):
     for seq in secops.sequences(OPS, L):
         for norm in (False, True):
             yield {"kind": "ops", "ops": seq, "norm": norm}
+    for ops in ([["append", "A"]], [["append", "A"], ["append", "B"]], [["append", "A"], ["append", "A"], ["append", ""]]):
+        for norm in (False, True):
+            yield {"kind": "ops", "ops": ops, "norm": norm, "curves": "text"}
     for names in (["Straße", "B"], ["STRASSE", "sıcaklık"], ["\u212a", "A"], ["K", "ǅ"], ["SICAKLIK", "Straße", "k"]):
         for norm in (False, True):
             yield {"kind": "ops", "ops": [["append", n] for n in names], "norm": norm}
@@ -136,6 +139,10 @@ def run_case(case, ctx):
 
     curves = case.get("curves", False)
     factory = (lambda name: lasio.CurveItem(name, "u", "v", "d", data=[1.0, 2.0])) if curves else None
+    if curves == "text":
+        # curves whose samples are text (time stamps, labels): get() derives its default item from the first curve
+        factory = lambda name: lasio.CurveItem(name, "u", "v", "d", data=np.array(["08:00", "08:01"]))
+        ctx.count("states_of_text_curves")
 
     def rebuild():
         return secops.build(lasio, ops, norm, factory)
